@@ -704,6 +704,15 @@ func runHist(line string, out *bufio.Writer) {
 	}
 	objs, ids := h.Objects()
 	tree := rtree.NewTree(h.Min, h.Max)
+	// every slice returned by NearestNeighbors is kept and rendered again after the whole history:
+	// an answer must not change under later calls (shared backing arrays, memoised results)
+	type keptAnswer struct {
+		res []geom.Geom
+		str string
+		n   int
+	}
+	var kept []keptAnswer
+	nq := 0
 	for i, op := range h.Ops {
 		if !op.Qry {
 			msg := vproto.Safe(func() {
@@ -721,6 +730,7 @@ func runHist(line string, out *bufio.Writer) {
 		}
 		q := h.KQs[op.ID]
 		p := geom.Point{X: q.X, Y: q.Y}
+		nq++
 		if q.K == 0 {
 			var res geom.Geom
 			if msg := vproto.Safe(func() { res = tree.NearestNeighbor(p) }); msg != "" {
@@ -739,14 +749,23 @@ func runHist(line string, out *bufio.Writer) {
 			if msg := vproto.Safe(func() { res = tree.NearestNeighbors(k, p) }); msg != "" {
 				b.WriteString(" | knn panic " + msg)
 			} else {
-				b.WriteString(" | knn")
-				rtwire.IDs(&b, res, ids)
+				var sb strings.Builder
+				rtwire.IDs(&sb, res, ids)
+				b.WriteString(" | knn" + sb.String())
+				kept = append(kept, keptAnswer{res, sb.String(), nq})
 			}
 		}
 	}
 	root, _, _ := tree.VerifWalk(70)
 	fmt.Fprintf(&b, " | T %d %d", tree.Size(), tree.Depth())
 	rtwire.Dump(&b, root, ids)
+	for _, k := range kept {
+		var sb strings.Builder
+		rtwire.IDs(&sb, k.res, ids)
+		if sb.String() != k.str {
+			fmt.Fprintf(&b, " | changed %d", k.n)
+		}
+	}
 }
 
 func main() {
